@@ -220,27 +220,27 @@ def botIntentSegR (cfg : Cfg) (opts : Option Opts) (predefined : Bool) : List St
    ++ (if predefined then [] else [LogEv.llm "generate_bot_message"]) ++ [LogEv.actFin "generate_bot_message"])
 
 def blockedTailR (cfg : Cfg) (opts : Option Opts) (c : Cat) (name : String) : Out :=
-  if cfg.exceptions then { trace := [.exception c name], log := [], reply := .exception c, blocker := some (c, name) }
+  if cfg.exceptions then { trace := [.exception c name], log := [], reply := .exception c, blocker := some (c, name), skipAfter := false }
   else { trace := (botIntentSegR cfg opts true).1 ++ [.utter cfg.refusal],
          log := LogEv.step name [.intent "refuse to respond"] :: (botIntentSegR cfg opts true).2,
-         reply := .text cfg.refusal, blocker := some (c, name) }
+         reply := .text cfg.refusal, blocker := some (c, name), skipAfter := false }
 
 def outputPhaseR (cfg : Cfg) (opts : Option Opts) (bm : String) : Out :=
   match runRails .output 0 cfg.output bm with
-  | (tr, lg, .passed t) => { trace := tr ++ [.utter t], log := lg, reply := .text t, blocker := none }
+  | (tr, lg, .passed t) => { trace := tr ++ [.utter t], log := lg, reply := .text t, blocker := none, skipAfter := false }
   | (tr, lg, .blocked n) => (blockedTailR cfg opts .output n).prepend tr lg
-  | (tr, lg, .faulted n) => { trace := tr ++ [.utter cfg.internalError], log := lg, reply := .text cfg.internalError, blocker := some (.output, n) }
+  | (tr, lg, .faulted n) => { trace := tr ++ [.utter cfg.internalError], log := lg, reply := .text cfg.internalError, blocker := some (.output, n), skipAfter := false }
 
 def processBotMessageR (cfg : Cfg) (opts : Option Opts) (skip : Bool) (bm : String) : Out :=
-  if skip then { trace := [.utter bm], log := [], reply := .text bm, blocker := none }
+  if skip then { trace := [.utter bm], log := [], reply := .text bm, blocker := none, skipAfter := false }
   else if cfg.hasFlows .output && sel opts .output then outputPhaseR cfg opts bm
-  else { trace := [.utter bm], log := [], reply := .text bm, blocker := none }
+  else { trace := [.utter bm], log := [], reply := .text bm, blocker := none, skipAfter := false }
 
 def afterInputR (cfg : Cfg) (opts : Option Opts) (um : String) (bot : Option String) (dlg : Dialog) : Out :=
   if !sel opts .dialog then
-    if !sel opts .output then { trace := [.utter um], log := [], reply := .text um, blocker := none }
+    if !sel opts .output then { trace := [.utter um], log := [], reply := .text um, blocker := none, skipAfter := false }
     else match bot with
-      | none => { trace := [], log := [], reply := .noBotMessage, blocker := none }
+      | none => { trace := [], log := [], reply := .noBotMessage, blocker := none, skipAfter := false }
       | some b => processBotMessageR cfg opts false b
   else match dlg with
     | .general text => (processBotMessageR cfg opts false text).prepend [.llmCall] (guiSeg "general")
@@ -251,7 +251,7 @@ def afterInputR (cfg : Cfg) (opts : Option Opts) (um : String) (bot : Option Str
 def turnCoreR (cfg : Cfg) (opts : Option Opts) (user : String) (bot : Option String) (dlg : Dialog) : Out :=
   match (if cfg.hasFlows .input && sel opts .input then runRails .input 0 cfg.input user else ([], [], .passed user)) with
   | (tr1, lg1, .blocked n) => (blockedTailR cfg opts .input n).prepend tr1 lg1
-  | (tr1, lg1, .faulted n) => { trace := tr1 ++ [.utter cfg.internalError], log := lg1, reply := .text cfg.internalError, blocker := some (.input, n) }
+  | (tr1, lg1, .faulted n) => { trace := tr1 ++ [.utter cfg.internalError], log := lg1, reply := .text cfg.internalError, blocker := some (.input, n), skipAfter := false }
   | (tr1, lg1, .passed um) => (afterInputR cfg opts um bot dlg).prepend tr1 lg1
 
 theorem retrievalPart_eq (cfg : Cfg) (opts : Option Opts) (sk : Bool) :
@@ -263,8 +263,8 @@ theorem botIntentSeg_eq (cfg : Cfg) (opts : Option Opts) (sk : Bool) (p : Bool) 
     botIntentSeg Gd cfg ⟨opts, cfg.hasFlows, sk⟩ p = some (botIntentSegR cfg opts p) := by
   simp only [botIntentSeg, retrievalPart_eq, bind, Option.bind, pure, botIntentSegR]
 
-theorem blockedTail_eq (cfg : Cfg) (opts : Option Opts) (sk : Bool) (c : Cat) (n : String) :
-    blockedTail Gd cfg ⟨opts, cfg.hasFlows, sk⟩ c n = some (blockedTailR cfg opts c n) := by
+theorem blockedTail_eq (cfg : Cfg) (opts : Option Opts) (c : Cat) (n : String) :
+    blockedTail Gd cfg ⟨opts, cfg.hasFlows, false⟩ c n = some (blockedTailR cfg opts c n) := by
   simp only [blockedTail, blockedTailR, botIntentSeg_eq, guard_skipOut, bind, Option.bind, pure]
   cases cfg.exceptions <;> simp
 
@@ -292,7 +292,7 @@ theorem afterInput_eq (cfg : Cfg) (opts : Option Opts) (um : String) (bot : Opti
 
 theorem turnCore_eq (cfg : Cfg) (opts : Option Opts) (user : String) (bot : Option String) (dlg : Dialog) :
     turnCore Gd cfg opts user bot dlg = some (turnCoreR cfg opts user bot dlg) := by
-  unfold turnCore turnCoreR
+  unfold turnCore turnCoreFrom turnCoreR
   simp only [guard_inputCfg, guard_inputOpt, bind, Option.bind, pure]
   cases hf : cfg.hasFlows .input <;> cases hs : sel opts .input <;>
     simp only [Bool.and_true, Bool.and_false, Bool.false_and, if_true, if_false, Bool.false_eq_true, afterInput_eq, Option.map]
@@ -621,7 +621,7 @@ theorem blockedTailR_tail (cfg : Cfg) (hc : cfg.clean) (opts : Option Opts) (c :
       exact CleanLog.append rfl h1
     · simp only [ioCalls_append, h2]; rfl
 
-theorem good_utter (t : String) : Good { trace := [.utter t], log := [], reply := .text t, blocker := none } := ⟨rfl, rfl⟩
+theorem good_utter (t : String) : Good { trace := [.utter t], log := [], reply := .text t, blocker := none, skipAfter := false } := ⟨rfl, rfl⟩
 
 theorem outputPhaseR_good (cfg : Cfg) (hc : cfg.clean) (opts : Option Opts) (bm : String) : Good (outputPhaseR cfg opts bm) := by
   unfold outputPhaseR
@@ -634,7 +634,7 @@ theorem outputPhaseR_good (cfg : Cfg) (hc : cfg.clean) (opts : Option Opts) (bm 
     simpa [Out.prepend] using this
   | blocked n => exact good_of_blocked_tail ⟨hl.1, hl.2⟩ (blockedTailR_tail cfg hc opts .output n)
   | faulted n =>
-    have : TailOk { trace := [.utter cfg.internalError], log := [], reply := .text cfg.internalError, blocker := some (Cat.output, n) } := ⟨rfl, rfl, rfl⟩
+    have : TailOk { trace := [.utter cfg.internalError], log := [], reply := .text cfg.internalError, blocker := some (Cat.output, n), skipAfter := false } := ⟨rfl, rfl, rfl⟩
     have := @good_of_blocked_tail tr lg _ ⟨hl.1, hl.2⟩ this
     simpa [Out.prepend] using this
 
@@ -685,7 +685,7 @@ theorem turnCoreR_good (cfg : Cfg) (hc : cfg.clean) (opts : Option Opts) (user :
       split at heq
       · rw [heq] at hl; exact hl.2
       · cases heq
-    have ht : TailOk { trace := [.utter cfg.internalError], log := [], reply := .text cfg.internalError, blocker := some (Cat.input, x) } := ⟨rfl, rfl, rfl⟩
+    have ht : TailOk { trace := [.utter cfg.internalError], log := [], reply := .text cfg.internalError, blocker := some (Cat.input, x), skipAfter := false } := ⟨rfl, rfl, rfl⟩
     have := @good_of_blocked_tail tr1 lg1 _ ⟨hseg.1, hb⟩ ht
     simpa [Out.prepend] using this
   · have hb : openEnd false lg1 = false := by
@@ -769,6 +769,64 @@ theorem turnCoreR_blocker_off (cfg : Cfg) (o : Opts) (hd : o.dialog = false) (us
     cases ou <;> cases bot <;> simp [processBotMessageR_blocker, sel, Opts.get]
   | blocked n => simp only [prepend_blocker, blockedTailR_blocker, blockerOf]
   | faulted n => simp only [blockerOf]
+
+/-! ### several calls on one conversation: the carried `$skip_output_rails` flag -/
+
+theorem prepend_skipAfter (tr : List Step) (lg : List LogEv) (o : Out) : (o.prepend tr lg).skipAfter = o.skipAfter := rfl
+
+theorem blockedTailR_skipAfter (cfg : Cfg) (opts : Option Opts) (c : Cat) (n : String) : (blockedTailR cfg opts c n).skipAfter = false := by
+  unfold blockedTailR; split <;> rfl
+
+theorem outputPhaseR_skipAfter (cfg : Cfg) (opts : Option Opts) (bm : String) : (outputPhaseR cfg opts bm).skipAfter = false := by
+  unfold outputPhaseR
+  rcases runRails .output 0 cfg.output bm with ⟨tr, lg, oc⟩
+  cases oc <;> simp [prepend_skipAfter, blockedTailR_skipAfter]
+
+theorem processBotMessageR_skipAfter (cfg : Cfg) (opts : Option Opts) (sk : Bool) (bm : String) :
+    (processBotMessageR cfg opts sk bm).skipAfter = false := by
+  unfold processBotMessageR
+  split
+  · rfl
+  · split
+    · exact outputPhaseR_skipAfter cfg opts bm
+    · rfl
+
+theorem afterInputR_skipAfter (cfg : Cfg) (opts : Option Opts) (um : String) (bot : Option String) (dlg : Dialog) :
+    (afterInputR cfg opts um bot dlg).skipAfter = false := by
+  unfold afterInputR
+  split
+  · split
+    · rfl
+    · cases bot with
+      | none => rfl
+      | some b => exact processBotMessageR_skipAfter cfg opts false b
+  · cases dlg <;> simp [prepend_skipAfter, processBotMessageR_skipAfter]
+
+theorem turnCoreR_skipAfter (cfg : Cfg) (opts : Option Opts) (user : String) (bot : Option String) (dlg : Dialog) :
+    (turnCoreR cfg opts user bot dlg).skipAfter = false := by
+  unfold turnCoreR
+  split <;> simp [prepend_skipAfter, blockedTailR_skipAfter, afterInputR_skipAfter]
+
+theorem turnFrom_false (G : Guards) (cfg : Cfg) (opts : Option Opts) (user : String) (bot : Option String) (dlg : Dialog) :
+    turnFrom G cfg false opts user bot dlg = turn G cfg opts user bot dlg := rfl
+
+/-- a turn started with the flag unset leaves it unset (guards of the current llm_flows.co) -/
+theorem turn_skipAfter (cfg : Cfg) (opts : Option Opts) (user : String) (bot : Option String) (dlg : Dialog) (out : Out)
+    (h : turn Gd cfg opts user bot dlg = some out) : out.skipAfter = false := by
+  rw [turn_eq] at h; cases h
+  exact turnCoreR_skipAfter cfg opts user bot dlg
+
+theorem session_eq (cfg : Cfg) : ∀ calls : List Call,
+    session Gd cfg false calls = calls.mapM (fun c => turn Gd cfg c.opts c.user c.bot c.dlg)
+  | [] => rfl
+  | c :: cs => by
+    simp only [session, turnFrom_false, List.mapM_cons]
+    cases ht : turn Gd cfg c.opts c.user c.bot c.dlg with
+    | none => simp
+    | some o =>
+      have hs := turn_skipAfter cfg c.opts c.user c.bot c.dlg o ht
+      simp only [hs, session_eq cfg cs]
+      cases List.mapM (fun c => turn Gd cfg c.opts c.user c.bot c.dlg) cs <;> simp
 
 /-! ### a concrete configuration for the non-vacuity examples of Theorems/C16.lean -/
 
